@@ -316,6 +316,11 @@ def edge_instances(rng):
         (f"({A} + {B}) {C}", [[n1, n2]], {A: n1}, "concatenation_part_forced_to_zero"),
         (f"{C} ({A} + {B} + {D})", [[n2, n1 + n3]], {A: n1, B: n3}, "concatenation_part_forced_to_zero"),
         (f"({A} + {B})...", [[n1, n1 + 1]], {A: (n1 - 1, n1 + 1)}, "concatenation_part_forced_to_zero"),
+        # a dimension of length 0: no assignment of positive integers has it, whatever else determines the axis
+        (f"{A} {B}, {A} {C}", [[0, n2], [n1, n3 + 1]], {}, "zero_length_dimension"),
+        (f"{A} {B}", [[0, n2]], {A: n1 + 3}, "zero_length_dimension"),
+        (f"{A}... {B}", [[0, n1, n2]], {A: (n3 + 3, n1)}, "zero_length_dimension"),
+        (f"({A} {B}) {C}", [[0, n2]], {A: n1}, "zero_length_dimension"),
         (f"{A} {B}", [[n1, n2]], {A: -n1}, "size_not_a_positive_integer"),
         (f"{A}... {B}", [[n1, n1, n2]], {A: (n1, -n1)}, "size_not_a_positive_integer"),
         (f"({A} {B}) {C}", [[n1 * n2, n3]], {A: n1 + 0.5}, "size_not_a_positive_integer"),
